@@ -234,7 +234,7 @@ def plain_fields_shim(sf, name, shim_name):
 def r14_map_or(cut):
     """R14 (generic): RECV.map_or(D, |x| E) -> (match RECV { Some(x) => E, None => D }) for a receiver that is a chain of field
     accesses / calls without nested parentheses and a closure body without a block (definition of Option::map_or)."""
-    pat = re.compile(r"((?:\*?self|\w+)(?:\s*\.\s*\w+(?:\([^()]*\))?)*)\s*\.\s*map_or\(\s*([^,()|]+?)\s*,\s*\|(\w+)\|\s*([^(){};]+?)\s*\)")
+    pat = re.compile(r"((?:\*?self|\w+)(?:\s*\.\s*\w+(?:\([^()]*\))?)*)\s*\.\s*map_or\(\s*([^,()|]+?)\s*,\s*\|(\w+)\|\s*((?:[^(){};]|\([^(){};]*\))+?)\s*\)")
     n = 0
     while True:
         m = pat.search(cut.text)
